@@ -37,6 +37,9 @@ type TB struct { // term builder (one per verification unit; not goroutine safe)
 	Bool   *Sort
 	True   *Term
 	False  *Term
+	// known(a, b) reports that the two index terms are known to differ (freshly allocated
+	// references are pairwise distinct and differ from nil)
+	known func(a, b *Term) bool
 }
 
 type UFDecl struct {
@@ -310,6 +313,9 @@ func (tb *TB) Eq(a, b *Term) *Term {
 	if a.IsConst() && b.IsConst() {
 		return tb.False // distinct hash-consed constants
 	}
+	if tb.known != nil && tb.known(a, b) {
+		return tb.False
+	}
 	if a.Sort.Kind == SBool {
 		if a.IsTrue() {
 			return b
@@ -472,6 +478,13 @@ func (tb *TB) bin(op string, a, b *Term) *Term {
 		// (x + c1) + c2
 		if b.Op == "bv" && a.Op == "bvadd" && a.Args[1].Op == "bv" {
 			return tb.bin("bvadd", a.Args[0], tb.bin("bvadd", a.Args[1], b))
+		}
+		// x + (y - x) = y
+		if b.Op == "bvsub" && b.Args[1] == a {
+			return b.Args[0]
+		}
+		if a.Op == "bvsub" && a.Args[1] == b {
+			return a.Args[0]
 		}
 	case "bvsub":
 		if isZero(b) {
@@ -678,6 +691,10 @@ func (tb *TB) Select(a, i *Term) *Term {
 			return a.Args[2]
 		}
 		if a.Args[1].IsConst() && i.IsConst() {
+			a = a.Args[0]
+			continue
+		}
+		if tb.known != nil && tb.known(a.Args[1], i) {
 			a = a.Args[0]
 			continue
 		}
